@@ -46,6 +46,7 @@ func cmdVerify(args []string) {
 	dump := fs.Bool("v", false, "verbose: print failed obligations' goals")
 	root := fs.String("root", repoRoot, "repository root")
 	lockType := fs.String("locktype", "", "generate lock-discipline units for this type (pkg.Type)")
+	times := fs.Bool("times", false, "print solver and time of every discharged obligation too")
 	fs.Parse(args)
 	pats := allPatterns
 	if *pkgs != "" {
@@ -139,6 +140,9 @@ func cmdVerify(args []string) {
 		}
 		fmt.Printf("%-60s %d/%d reach=%s\n", u.Key, ok, len(u.VC.obls), u.Reach)
 		for _, o := range u.VC.obls {
+			if *times && o.Status == "unsat" {
+				fmt.Printf("   ok   %-50s %-8s %s %.1fs\n", o.Name, o.Status, o.Solver, o.Seconds)
+			}
 			if o.Status != "unsat" {
 				fmt.Printf("   FAIL %-50s %-8s %s %.1fs  %s:%d  %s\n", o.Name, o.Status, o.Solver, o.Seconds, o.Pos.Filename, o.Pos.Line, o.Desc)
 				if *dump {
